@@ -2,7 +2,7 @@
 from .. import container
 from ..core import Sub, build_machine, run_history
 
-PROP = {'id': 'C04', 'level': 'exploration', 'technique': "Hypothesis RuleBasedStateMachine over add / remove / replace / setter histories with payloads of differing sizes; frame condition against a reference model: every live block's stored bytes, format, comment and creation/modification dates equal what was recorded when it was last written (opaque blocks: the initial bytes); after every reopen each decodable block is read back and compared with its spec", 'level_text': 'Exploration of histories with a per-block frame condition checked after every step on the raw file (independent parse) and, at every reopen, through get_block. Later blocks always have to move because payload sizes differ; initial files contain blocks of types the library cannot decode, occasionally payloads above 1 MiB, padding between blocks, or are the BTS capture itself.', 'level_note': "Trusted: reftdf (payload bytes recorded from the reference encoder, which C06 shows to be byte-identical to the library's writer). Access dates are not part of the property.", 'design_ref': 'DESIGN.md section 4, C04', 'rule': 'case = {init image, ops}; non-trivial = an operation on a block that is not the last one while >= 2 blocks are live (neighbours move); distinct by sha1 of the history', 'assumptions': []}
+PROP = {'id': 'C04', 'level': 'exploration', 'technique': "Hypothesis RuleBasedStateMachine over add / remove / replace / setter histories with payloads of differing sizes; frame condition against a reference model: every live block's stored bytes, format, comment and creation/modification dates equal what was recorded when it was last written (opaque blocks: the initial bytes); after every reopen each decodable block is read back and compared with its spec; enumerated scripts (equal sizes, fill levels, 2^k tails, foreign images); histories and scripts repeated with the process in a non-UTC zone with daylight saving time", 'level_text': 'Exploration of histories with a per-block frame condition checked after every step on the raw file (independent parse) and, at every reopen, through get_block. Later blocks always have to move because payload sizes differ; initial files contain blocks of types the library cannot decode, occasionally payloads above 1 MiB, padding between blocks, or are the BTS capture itself.', 'level_note': "Trusted: reftdf (payload bytes recorded from the reference encoder, which C06 shows to be byte-identical to the library's writer). Access dates are not part of the property.", 'design_ref': 'DESIGN.md section 4, C04', 'rule': 'case = {init image, ops}; non-trivial = an operation on a block that is not the last one while >= 2 blocks are live (neighbours move); distinct by sha1 of the history', 'assumptions': []}
 
 GROUPS = {"C04"}
 REFUSALS = False
